@@ -107,7 +107,7 @@ def run(tier):
     cov = dict(states=states, transitions=trans, traces_validated_against_impl=rep["evaluations"] + tev,
                samples=rep["samples"][:4], evaluations=rep["evaluations"] + tev, distinct_nontrivial=rep["nontrivial"],
                rule="Gen: every distinct repository reachable with <= %d commits and <= %d operations over main+%s and the first "
-                    "%d tag names of {v1.0.0, 1.0.0a1, latest, v2.0.0-rc.1, 1.0.0, v1.1.0} (every %d-th uninteresting state; all "
+                    "%d tag names of {v1.0.0, 1.0.0a1, main (also a branch name), v2.0.0-rc.1, 1.0.0, v1.1.0} (every %d-th uninteresting state; all "
                     "states with a merge commit, two tags on a commit, a tag unreachable from HEAD or a detached HEAD), each "
                     "observed 7 times (3 formats clean + 4 work-tree kinds). distinct_nontrivial = those interesting states. "
                     "A second exploration adds reset --hard, commit --amend and tag -f (<= %d commits, <= %d operations, %d tag names, every %d-th "
